@@ -111,6 +111,9 @@ func treeHashSetup(hashFunction HashFunction, node []uint8, index uint32, bdsSta
 }
 
 func genLeafWOTS(hashFunction HashFunction, leaf, skSeed []uint8, xmssParams *XMSSParams, pubSeed []uint8, lTreeAddr, otsAddr *[8]uint32) {
+	if verifLeaf(leaf, lTreeAddr) {
+		return
+	}
 	seed := make([]uint8, xmssParams.n)
 	pk := make([]uint8, xmssParams.wotsParams.keySize)
 
